@@ -20,7 +20,7 @@ Definition FIX_NULL_FIRST : bool := true.   (* add_values NULL scan starts at 0 
 Definition FIX_MERGE_PORTS : bool := true.  (* objs[j] = NULL inside if (is_nvswitch(objs[j])) *)
 Definition FIX_BY_NAME_KIND : bool := true. (* get_by_name passes kind 0 instead of KIND_ALL *)
 Definition FIX_XML_KIND_ZERO : bool := true. (* XML import no longer treats kind="0" as a missing attribute *)
-Definition FIX_GROUPS_FIRSTFOUND : bool := false. (* newfirstfound = smallest newly grouped index, not the first one found *)
+Definition FIX_GROUPS_FIRSTFOUND : bool := true. (* newfirstfound = smallest newly grouped index, not the first one found *)
 
 Definition TYPE_NONE : N := HWLOC_OBJ_TYPE_NONE_U.
 Definition two64 : N := 18446744073709551616.
